@@ -33,7 +33,7 @@ CHECKS["C06"] = ("property-based testing (proptest): dense output vs the accepte
 CHECKS["C08"] = ("two-phase property-based testing (proptest): event roots placed relative to the plain run's step grid; validity predicate over every reported event",
          "Roots of 1..4 generated event functions are placed mid-step, 1e-13..1e-9 beside a step end, or several in one step; each reported event is checked for bracket membership, agreement with the dense solution, |g| against a Lipschitz-scaled root-finder bound, direction in integration order, ordering and shapes.",
          "Sampled Lipschitz constant (64 sub-intervals, x2); event functions with exact power-of-two factors 2^-1000..2^900, strictly positive ones, picosecond spans, zero-length run.", "DESIGN.md §4 C08")
-CHECKS["C09"] = ("two-phase property-based testing (proptest): sign pattern of g at the accepted steps vs reported events (exactly-one / none matching)",
+CHECKS["C09"] = ("two-phase property-based testing (proptest) + libFuzzer campaign (thorough tier): sign pattern of g at the accepted steps vs reported events (exactly-one / none matching)",
          "Same two-phase placement; for every function and step the strict sign pattern at the step ends decides whether exactly one, none or any event may be attributed to the step; single-root time events must be found exactly once and located to 4e-12.",
          "Exact zeros at step ends are skipped (SciPy semantics, as the property allows).", "DESIGN.md §4 C09")
 CHECKS["C05"] = ("two-phase metamorphic property-based testing (proptest): requested times placed on / beside / between the plain run's step ends; bitwise comparison with t_eval and with the dense twin's Solution::sol",
